@@ -316,6 +316,22 @@ def check_c13(multi, res):
         tr_ = tx.find_title(t("Average Price"))
         if tr_ is None or not num_eq(tx.shown(tr_ + 3, 0), dec(d["price_per_unit"])):
             bad(f"{tx.name}: average price shows {None if tr_ is None else tx.shown(tr_ + 3, 0)!r}, computed {dec(d['price_per_unit'])}", "avg-price")
+        # the figures themselves, from the input rows (not only "the report shows what was computed"): average price of
+        # everything acquired up to the to-date; without a window, the yearly lines as sums over the detail fractions
+        try:
+            from harness.props.c10 import avg_price_ok
+            if (dates_monotone(c) or multi.get("to") is None) and not avg_price_ok(c, multi.get("to"), d["price_per_unit"]):
+                bad(f"{tx.name}: average price {dec(d['price_per_unit'])} is not the cost of all acquisitions up to the to-date divided by their amount",
+                    "avg-price-figure")
+            if multi.get("from") is None and multi.get("to") is None:
+                want_y = oracle.yearly(c, d["fractions"], None, None)
+                got_y = {(y[0], y[1], y[2]): [y[3], oracle.dec_of_pair(y[4]), oracle.dec_of_pair(y[5]), oracle.dec_of_pair(y[6])] for y in d["yearly"]}
+                if want_y != got_y:
+                    diff = sorted(set(want_y) ^ set(got_y)) or [k for k in want_y if want_y[k] != got_y.get(k)]
+                    bad(f"Summary lines of {a}: {diff[:3]} differ from the sums over the detail fractions "
+                        f"(expected {[want_y.get(k) for k in diff[:2]]}, reported {[got_y.get(k) for k in diff[:2]]})", "summary-figure")
+        except (KeyError, TypeError, ValueError, ZeroDivisionError):
+            pass            # (a case whose rows the row oracles cannot read is judged by the cell comparison only)
         # gain / loss detail
         tr_ = tx.find_title(t("Gain / Loss Detail"))
         if tr_ is None:
